@@ -212,9 +212,19 @@ def conn_member(desc, tier, seed):
         b2, gp = make_processor(desc, 'COMPLETE')
         X, A = gp.get_all_discrete_x()
         got = set()
+        got_full = set()
+        ref_full = ref_archs(desc)
         for x in X:
             inst, xi, ai = gp.get_graph(list(x))
-            got.add(obs_arch(b2, inst)[0])
+            arch = obs_arch(b2, inst)
+            got.add(arch[0])
+            got_full.add(arch)
+            ctx.check('C11.decoded-connection-set-valid-for-present-connectors', arch in ref_full, ['COMPLETE', list(map(float, x))],
+                      f'decoded connection edges {arch[1]} are not a valid set for the connectors present in {sorted(arch[0])}',
+                      (desc.label, 'decode', tuple(x)))
+        ctx.check('C11.every-valid-connection-set-offered-by-the-encoding', ref_full <= got_full, ['COMPLETE', 'enumeration'],
+                  f'{len(ref_full - got_full)} valid (scenario, connection set) pairs are never decoded, e.g. {list(ref_full - got_full)[:1]}',
+                  (desc.label, 'onto'))
         want = {n for n, _ in ref_archs(desc)}
         ctx.check('C11.scenarios-with-valid-sets-kept-others-excluded', got == want, ['COMPLETE', 'enumeration'],
                   f'node scenarios decoded {len(got)}, reference {len(want)}; lost {[sorted(m) for m in list(want - got)[:2]]} '
